@@ -415,6 +415,23 @@ def run_property(mod, tier, seed):
                 total.samples.setdefault(f"extra{len(total.samples)}", s)
             total.harness_errors.extend(res.get("harness_errors", []))
 
+    # 2b. coverage-guided stage (opt-in per module, see vk/fuzz.py); the pool is closed first so the
+    # sixteen fuzz workers have the cores to themselves
+    if getattr(mod, "FUZZ", {}).get(tier):
+        from . import fuzz
+
+        res = fuzz.campaign(mod, tier, seed)
+        if res:
+            extra_cov.update(res.get("coverage", {}))
+            total.evals += res.get("evaluations", 0)
+            for h in res.get("nontrivial_hashes", []):
+                total.nt.add(h)
+            for case_, fs in res.get("fails", []):
+                total.fails.append((case_, fs, None))
+            for s_ in res.get("samples", []):
+                total.samples.setdefault(f"fuzz{len(total.samples)}", s_)
+            total.harness_errors.extend(res.get("harness_errors", []))
+
     # 3. verdicts ----------------------------------------------------------------------------
     buckets = {}
     for case, fs, sh in total.fails:
